@@ -30,6 +30,32 @@ func plan(prop, tier string) []Part {
 			{Name: "random", N: q(tier, 32, 640), Chunk: 2, Timeout: to},
 			{Name: "mono", N: q(tier, 32, 320), Chunk: 2, Timeout: to},
 		}
+	case "C19":
+		return []Part{{Name: "script", N: q(tier, 12, 300), Chunk: 1, Timeout: to}}
+	case "C20":
+		return []Part{
+			{Name: "size", N: q(tier, 8, 200), Chunk: 1, Timeout: to},
+			{Name: "pct", N: q(tier, 5, 100), Chunk: 1, Timeout: to},
+			{Name: "time", N: q(tier, 3, 60), Chunk: 1, Timeout: to},
+			{Name: "ewma", N: q(tier, 4, 80), Chunk: 1, Timeout: to},
+		}
+	case "C09":
+		ps := []Part{
+			{Name: "exh3", N: 20, Chunk: 1, Timeout: to},
+			{Name: "random", N: q(tier, 16, 320), Chunk: 1, Timeout: to},
+		}
+		if tier == "thorough" {
+			ps = append(ps, Part{Name: "exh4", N: 20, Chunk: 1, Timeout: 30 * time.Minute})
+		}
+		return ps
+	case "C07":
+		return []Part{
+			{Name: "grid", N: q(tier, 16, 160), Chunk: 1, Timeout: to},
+			{Name: "fill", N: q(tier, 16, 400), Chunk: 1, Timeout: to},
+			{Name: "spin", N: q(tier, 4, 40), Chunk: 1, Timeout: to},
+			{Name: "decor", N: q(tier, 8, 100), Chunk: 1, Timeout: to},
+			{Name: "row", N: q(tier, 16, 400), Chunk: 1, Timeout: to},
+		}
 	}
 	return nil
 }
@@ -58,9 +84,17 @@ func assumptionsOf(prop string) []string {
 }
 
 var rules = map[string]string{
+	"C19": "cases = scripted under-layers: all 2^3 dynamic interface shapes of the wrapped value (Close, WriteTo/ReadFrom) x direction x moving-average decorator present or not (wrapped 0..3 deep) x total unknown / exact / exceeded / larger x container none / auto; scripts of 1..50 calls with 0-byte, short and full transfers, injected delays, an error (EOF, custom, short write) at a random position; non-trivial = at least one byte moved; distinct = distinct case tuples",
+	"C20": "cases = (value, unit system, verb/flag/precision, route: formatter type directly or through Counters/Total/Current/InvertedCurrent/speed decorators) over the full lattice of unit boundaries +-2 and half-way points plus seeded random int64 values; (current,total) pairs incl. > 2^57 for the percentage; durations on the carry-boundary lattice and random below 60 h for the four time styles (exact through a normaliser, time-based with an interval expectation); (n,duration) sample sequences incl. n<=0 and zero durations fed directly and through a bar with wrappers 0..3 deep; freeze probes. Printed strings are parsed back and compared in 300-bit arithmetic. Non-trivial = every case with a non-degenerate value; distinct = distinct case tuples",
+	"C09": "cases = sequential operation lists on one bar: ALL sequences of length 3 (thorough: also length 4) over a 20-letter alphabet (argument classes -1, 0, total-1, total, total+1, big) from initial totals {-5,0,1,10,2^62}, plus seeded random lists of up to 40 operations with int64 arguments (no overflowing sums) in non-refreshing, manual and auto containers; after every step Current/Completed/Aborted (manual: also the Statistics of a rendered frame) are compared with the reference machine; non-trivial = at least 2 steps compared; distinct = distinct (mode,total,ops)",
+	"C07": "cases = seeded draws of (bar style components from {empty, ASCII, wide CJK, zero-width, multi-rune}, reverse, tip frames, tip-on-complete, refill, widths 0..300 with a full sweep 0..40, requested widths -1..400, int64 totals/currents), spinner styles, built-in decorators x WC{W,C} x wrappers, and whole rows through a manually refreshed container; a case is non-trivial when the allotted width is > 0; distinct = distinct case tuples",
 	"C08": "cases = (total,current,refill,width,style) tuples: an exhaustive boundary lattice (int64 boundaries squared x widths) plus seeded random tuples plus sorted chains for monotonicity; a case is non-trivial when the inner width is > 0 and total > 0; distinct = distinct (total,current,refill,width,style) tuples",
 }
 
 var assumptions = map[string][]string{
+	"C19": {"sample durations are checked as nesting of measured intervals (injected sleep <= sample <= duration measured around the proxy call), never against a deadline", "after the bar completed, later samples may legitimately be dropped (the bar's goroutine may already have exited); only transfers up to the completing one are required"},
+	"C20": {"domain as stated in the property (0 <= current <= total, durations < 60 h)", "tolerance = half a unit of the last printed digit + 4e-16 relative (float64 arithmetic inside the formatter)", "time-based decorators are given a start in the past; expectation is the interval [D, D + measured call overhead]", "speeds >= 2^63 B/s and a zero time.Since cannot be produced from outside and are not claimed"},
+	"C09": {"reference machine = DESIGN.md Appendix B, written from the documented rules", "checking stops at the first terminal transition (C11 takes over)", "overflowing sums are outside the documented rules and not generated"},
+	"C07": {"widths by the harness' own table for the runes it generates", "non-termination is decided on CPU time (>1.5 s in one call) or heap growth (>768 MiB), never on wall time", "ANSI colouring is applied through the Meta wrappers (the documented mechanism); raw escape sequences inside decorator text are outside the claimed domain", "user-supplied fillers/decorators are not held to the bound"},
 	"C08": {"cell classification relies on the harness' own width table for the runes it generates (ASCII=1, chosen CJK=2)", "expected fill computed with math/big, round-half-away-from-zero; +-1 cell allowed only where width*current exceeds 2^53 (float rounding) and +-(r-1) for r-column runes"},
 }
